@@ -1679,10 +1679,11 @@ class RawAlgorithmsMixIn:
         if numpy.ndim(newshape) == 0:
             newshape = (newshape,)
 
-        return numpy.reshape(a_data, a_data.shape[:2] + newshape)
         # a tuple of Python ints, whatever the caller passed (a NumPy integer, a list, an array):
         # (D,P) + numpy.int64(12) would ADD 12 to D and P
         newshape = tuple(int(n) for n in newshape)
+
+        return numpy.reshape(a_data, a_data.shape[:2] + newshape)
 
     @classmethod
     def _pb_reshape(cls, ybar_data, x_data, y_data,  out=None):
